@@ -258,6 +258,25 @@ def forest_check(prop, tier, seed):
                 if idx < len(v["lines"]):
                     ev = json.loads(v["lines"][idx])
                     samples.append({k: ev[k] for k in ("op", "a", "res", "ret")})
+    if prop == "C04":
+        # slot churn: handles across tens of thousands of allocate / remove cycles of one arena slot (see spec/MCArena.tla)
+        cfgname = write_cfg("gen_C04_arena.cfg", "SPECIFICATION Spec\nCONSTANTS\n  MaxStamp = %d\n  MaxSlots = 2\n  MaxAllocs = %d\n  Saturate = \"retire\"\nINVARIANTS HandlesStayDead LiveHandlesLive NoAliasing\nCHECK_DEADLOCK FALSE\n" % ((2, 9) if quick else (3, 13)))
+        mcs.append(mc("MCArena.tla", cfgname, workers=4, timeout=900, tag="C04_arena"))
+        os.remove(os.path.join(vlib.SPEC, cfgname))
+        cp = os.path.join(d, "churn.ndjson")
+        ncyc = 33000 if quick else 70000
+        vlib.run_harness(exe, ["churn", "--cycles", str(ncyc), "--out", cp], timeout=1800)
+        vc = vlib.validate_trace_flat(cp, module="TraceArena.tla", cfg="TraceArena.cfg", nshards=1, timeout=600, tag="C04_churn")
+        events["churn"] = vc["events"]
+        log(f"[churn] {vc['events']} episodes validated, {len(vc['rejects'])} rejections")
+        for rj in vc["rejects"]:
+            if rj["known"]:
+                known.setdefault(rj["known"], 0)
+                known[rj["known"]] += 1
+                continue
+            if len(violations) < 25:
+                violations.append(vlib.save_replay(prop, {"kind": "churn", "cycles": ncyc}, rj))
+                log(f"  reject: churn detail={json.dumps(rj['detail'])[:240]}")
     kf = {f["id"]: f for f in vlib.load_known()}
     known_lines = [f"{kid} ({cnt} events): {kf.get(kid, {}).get('what', '')}" for kid, cnt in sorted(known.items())]
     cov = {
@@ -517,7 +536,7 @@ def parser_jobs(prop, tier, seed):
                      "encs": list(encs), "idq": [list(i) for i in ids] + [X.cps("nope")]})
 
     # spec -> code: enumerate every spelling of tiny documents, one family of choices at a time
-    families = [{"char", "cdata", "split", "splitat", "cdataeol"}, {"quote", "ws", "eq", "endws", "empty"}, {"xmldecl", "topws", "interleave", "interleave2", "prefix", "idpad"}]
+    families = [{"char", "cdata", "split", "splitat", "cdataeol"}, {"quote", "ws", "eq", "endws", "empty"}, {"xmldecl", "topws", "interleave", "interleave2", "prefix", "idpad", "bom"}]
     per_doc = 60 if quick else 2000
     for doc in small_docs(X):
         for fam in families:
@@ -538,6 +557,11 @@ def parser_jobs(prop, tier, seed):
             else:
                 add("frag", X.render_doc({"kids": [("text", [120]), doc["root"], ("comm", [120])]}, ch, "frag"), "yes", ids=X.doc_ids(doc), encs=[])
             counts["enumerated"] += 1
+    # fragments with several top-level elements: the first one's declarations must not reach the later ones
+    for fr in X.scope_exit_frags():
+        for rep in range(1 if quick else 6):
+            add("frag", X.render_doc(fr, X.RandomChooser(rnd), "frag"), "yes", ids=[], encs=[])
+            counts["enumerated"] += 1
     # code -> spec: random documents x random renderings (+ damage catalogue, + fragments)
     ndocs = 250 if quick else 12000
     for k in range(ndocs):
@@ -552,7 +576,8 @@ def parser_jobs(prop, tier, seed):
                 toks = X.render_doc(doc, ch, "doc")
         except ValueError:
             continue
-        add(mode, toks, "yes", ids=X.doc_ids(doc), encs=encs_all if (mode == "doc" and k % 3 == 0) else [])
+        has_bom = bool(toks) and toks[0]["k"] == "bom"        # (the byte encodings add their own mark)
+        add(mode, toks, "yes", ids=X.doc_ids(doc), encs=encs_all if (mode == "doc" and k % 3 == 0 and not has_bom) else [])
         counts["random"] += 1
         if mode == "doc" and k % 6 == 1:
             # single-byte encodings with a declaration: only characters on which ISO-8859-1 and windows-1252 agree
@@ -811,6 +836,17 @@ def ser_check(prop, tier, seed):
             j.update(ser_params(rnd, prop, k))
             jobs.append(j)
             counts["random"] += 1
+    if prop in ("C14", "C16"):
+        # very deep element-only nesting with indentation on: indentation is two spaces per level at ANY depth
+        for depth in ((36, 70) if quick else (36, 70, 130)):
+            fd = gen.Forest(True)
+            cur = fd.add(gen.node("elem", ln="a"))
+            for lv in range(depth):
+                cur = fd.add(gen.node("elem", ln="abc"[lv % 3]), cur)
+                if lv % 17 == 5:
+                    fd.add(gen.node("elem", ln="b"), fd.n[cur - 1]["p"])       # a sibling now and then
+            jobs.append({"st": fd.state(), "root": 1, "frag": False, "what": what, "cdata": [], "ugt": False, "decl": 0, "indent": True, "suppress": []})
+            counts["random"] += 1
     rnd.shuffle(jobs)
     jp = os.path.join(d, "jobs.ndjson")
     with open(jp, "w") as fh:
@@ -917,6 +953,10 @@ def html_check(prop, tier, seed):
     exe = vlib.build_harness()
     d = vlib.workdir("html")
     rnd = random.Random(seed)
+    # the two HTML escapers as transcribed, on every string over the characters an HTML tokenizer cares about
+    cfgname = write_cfg("gen_C19_lexhtml.cfg", "SPECIFICATION Spec\nCONSTANTS\n  MaxLen = %d\n  Alphabet = {120, 38, 60, 62, 34, 39, 160, 123, 59, 35}\nINVARIANTS HtmlTextOk HtmlAttrOk\nCHECK_DEADLOCK FALSE\n" % (5 if quick else 6))
+    r_lex = mc("MCLexHtml.tla", cfgname, workers=8, timeout=1800, tag="C19_lexhtml")
+    os.remove(os.path.join(vlib.SPEC, cfgname))
     states, r_g = dump_states("MCHtml.tla", HTML_CFG.format(full="FALSE" if quick else "TRUE"), "C19_html")
     rnd.shuffle(states)
     jobs = []
@@ -1007,7 +1047,16 @@ def html_check(prop, tier, seed):
                         seen.add(key)
                     keep.append(c)
                 nd["c"] = keep
-        jobs.append({"st": f.state(), "root": roots[0], "indent": k % 2 == 0, "suppress": rnd.choice(sup_opts), "cdata": rnd.choice(cd_opts)})
+        cdsel = rnd.choice(cd_opts)
+        if k % 3 == 1:
+            # a CDATA-section element that differs from an element of the tree only in letter case or in the choice
+            # between no namespace and XHTML: that element did NOT ask for a CDATA section
+            withtext = [nd for nd in f.n if nd["k"] == "elem" and any(f.n[c - 1]["k"] == "text" for c in nd["c"]) and nd["ns"] in ("", "http://www.w3.org/1999/xhtml")]
+            if withtext:
+                nd = rnd.choice(withtext)
+                other_ns = "http://www.w3.org/1999/xhtml" if nd["ns"] == "" else ""
+                cdsel = [rnd.choice([[nd["ns"], nd["ln"].swapcase()], [other_ns, nd["ln"]], [nd["ns"], nd["ln"].upper() if nd["ln"] != nd["ln"].upper() else nd["ln"].lower()]])]
+        jobs.append({"st": f.state(), "root": roots[0], "indent": k % 2 == 0, "suppress": rnd.choice(sup_opts), "cdata": cdsel})
         counts["random"] += 1
     rnd.shuffle(jobs)
     jp = os.path.join(d, "jobs.ndjson")
@@ -1033,7 +1082,7 @@ def html_check(prop, tier, seed):
     kf = {f["id"]: f for f in vlib.load_known()}
     known_lines = [f"{kid} ({cnt} events): {kf.get(kid, {}).get('what', '')}" for kid, cnt in sorted(known.items())]
     distinct = len({json.dumps(j["st"]["n"]) + str(j["root"]) for j in jobs})
-    cov = {"states": r_g["distinct"] + r_ns["distinct"], "transitions": r_g["generated"] + r_ns["generated"], "traces_validated_against_impl": len(jobs), "evaluations": len(jobs),
+    cov = {"states": r_g["distinct"] + r_ns["distinct"] + r_lex["distinct"], "transitions": r_g["generated"] + r_ns["generated"] + r_lex["generated"], "traces_validated_against_impl": len(jobs), "evaluations": len(jobs),
            "distinct_nontrivial": distinct,
            "rule": "one event per (forest, node, parameters): html5() serialisation under catch_unwind, output tokenised by an independent HTML tokenizer, rules judged by TLC; distinct = distinct (forest, node) pairs",
            "samples": [{"root": jobs[0]["root"], "indent": jobs[0]["indent"], "first_nodes": jobs[0]["st"]["n"][:4]}], "exhaustive": False, "inputs": counts}
@@ -1308,6 +1357,9 @@ def replay(prop, path):
         vlib.run_harness(exe, ["forest-exec", "--scenario", sp, "--out", out])
         v = vlib.validate_trace(out, nshards=1, tag="replay")
         flat = False
+    elif kind == "churn":
+        vlib.run_harness(exe, ["churn", "--cycles", str(sc.get("cycles", 33000)), "--out", out], timeout=1800)
+        v = vlib.validate_trace_flat(out, module="TraceArena.tla", cfg="TraceArena.cfg", nshards=1, tag="replay")
     elif kind == "intern":
         log("interning scenarios are re-driven from their seed: VERIF_SEED=%s ./check C08" % sc.get("seed"))
         res = CHECKS["C08"]("C08", "quick", int(sc.get("seed", 1)))
